@@ -144,7 +144,7 @@ def _safe_render(space_name, p):
 
 
 def load_findings():
-    path = os.path.join(VERIF, "known_findings.json")
+    path = os.environ.get("FADLMC_FINDINGS", os.path.join(VERIF, "known_findings.json"))
     if not os.path.exists(path):
         return []
     with open(path) as f:
